@@ -58,7 +58,7 @@ REQUIRED_BINS = ["mps_16", "mps_64", "mps_1024", "profile_hostile", "profile_sat
                  "in_request_at_completion", "ack_and_request", "pure_ack", "retry_rty", "retry_repeated_seq", "retry_of_zlp",
                  "nrdy_then_erdy", "short_packet_end", "zlp_end", "full_packet", "partial_last_word_1", "partial_last_word_2",
                  "partial_last_word_3", "tx_stall_mid_packet", "tx_stall_on_last_word", "tx_stall_on_first_word", "foreign_tp_while_waiting_for_ack",
-                 "foreign_tp_seq_plus_1", "ep_reset_quiet", "seq_wrap_31_0", "second_buffer_filled_before_ack", "single_word_packet",
+                 "foreign_tp_seq_plus_1", "ep_reset_quiet", "packet_after_ep_reset", "seq_wrap_31_0", "second_buffer_filled_before_ack", "single_word_packet",
                  "hs_done_latency_ge_5", "endless_tail"]
 REQUIRED_EVENTS = ["in_requests", "data_packets_checked", "bytes_compared", "nrdy_seen", "erdy_seen", "acks_sent", "retries_checked",
                    "words_accepted", "tx_words", "zlp_seen", "sessions", "clean_sessions_without_violation"]
@@ -133,6 +133,8 @@ class Session:
         self.p_early_request = rng.choice([0.0, 0.3, 0.7, 1.0])
         self.p_at_completion = rng.choice([0.0, 0.3, 0.6])
         self.p_reset = rng.choice([0.0, 0.0, 0.3, 0.6])
+        # transfers after which the producer pauses until the host has reset the endpoint (sequence numbers restart at 0)
+        self.reset_points = set(i for i in range(len(self.lengths) - 1) if rng.random() < 0.5 * self.p_reset)
         self.first_seq_boost = rng.random() < 0.3      # many small packets so that the sequence number wraps (needs > 32 packets)
         if self.first_seq_boost and self.mps == 16:
             extra = [rng.randint(5, 15) if self.clean else rng.choice([16 + rng.randint(5, 15), rng.randint(5, 15), 7]) for _ in range(rng.randint(34, 44))]
@@ -178,7 +180,7 @@ class Session:
         exp = []            # dicts: data (bytes; b"" = ZLP), t (cycle in which the packet became complete), race (see complete_packet)
         cur = bytearray()
         M = self.M = {"accepted_bytes": 0, "last_ack_cycle": -10, "producer_done": False, "words_left": total_words,
-                      "pause": False, "offering": False, "erdy_blocked_by_nrdy": -1, "eta": None}
+                      "pause": False, "offering": False, "erdy_blocked_by_nrdy": -1, "eta": None, "want_reset": False}
 
         # ---------------- observed output side
         events = []         # chronological: ("tx_start", cyc) / ("dp", dict) / ("nrdy" | "erdy", cyc, endpoint field) / ("hs_done", cyc)
@@ -295,11 +297,14 @@ class Session:
             for _ in range(self.start_delay):
                 yield
             script = []
-            for n in self.lengths:
+            reset_after = set()
+            for k, n in enumerate(self.lengths):
                 data = bytes(rng.randrange(256) for _ in range(n))
                 for i in range(0, n, 4):
                     chunk = data[i:i + 4]
                     script.append((chunk, i + 4 >= n))
+                if k in self.reset_points:
+                    reset_after.add(len(script) - 1)
             for _ in range(self.endless_words):
                 script.append((bytes(rng.randrange(256) for _ in range(4)), False))
             if self.endless_words:
@@ -339,6 +344,10 @@ class Session:
                     yield
                 b.set(st.valid, 0)
                 M["offering"] = False
+                if j in reset_after:
+                    M["want_reset"] = True
+                    while M["want_reset"]:
+                        yield
                 if rng.random() < 0.5:
                     b.set(st.last, rng.randrange(2)); b.set(st.payload, rng.getrandbits(32))
             M["producer_done"] = True
@@ -509,6 +518,12 @@ class Session:
                 self.drain()
                 if all_done():
                     return
+                if M["want_reset"]:
+                    if not H["flow"] and H["next"] >= len(exp) and self.nothing_buffered(M, exp):
+                        yield from self.quiet_reset(M, exp)
+                        continue
+                    if H["flow"]:
+                        M["want_reset"] = False         # no reset while flow-controlled (grey zone); let the stream go on
                 if H["flow"]:
                     got = yield from self.wait_erdy(exp, M, budget)
                     if not got:
@@ -519,9 +534,9 @@ class Session:
                     k = rng.random()
                     if self.clean and i >= len(exp) and H["delivered"] > 0:
                         # saturated profile: only poll when a packet is there (except for the very first request)
-                        while H["next"] >= len(exp) and not all_done() and b.cycle <= budget:
+                        while H["next"] >= len(exp) and not all_done() and not M["want_reset"] and b.cycle <= budget:
                             yield from self.idle(1)
-                        if all_done() or b.cycle > budget:
+                        if all_done() or b.cycle > budget or H["next"] >= len(exp):
                             continue
                         yield from self.idle(SLACK + 2)
                     elif k < self.p_at_completion and i >= len(exp) and not M["producer_done"]:
@@ -531,7 +546,7 @@ class Session:
                         if guess is not None and rng.random() < 0.5:
                             yield from self.idle(max(0, guess + rng.choice([-1, -1, 0, 0, 1])))
                         else:
-                            while H["next"] >= len(exp) and n < 3000 and not M["producer_done"]:
+                            while H["next"] >= len(exp) and n < 3000 and not M["producer_done"] and not M["want_reset"]:
                                 yield from self.idle(1)
                                 n += 1
                             yield from self.idle(rng.choice([0, 0, 1, 2, 3]))
@@ -624,7 +639,7 @@ class Session:
             if self.clean:
                 # acknowledge only when the next packet is buffered (or nothing more will come)
                 n = 0
-                while not (H["next"] + 1 < len(exp)) and not M["producer_done"] and n < 5000:
+                while not (H["next"] + 1 < len(exp)) and not M["producer_done"] and not M["want_reset"] and n < 5000:
                     yield from self.idle(1, waiting_for_ack=True)
                     n += 1
                 yield from self.idle(SLACK + 2, waiting_for_ack=True)
@@ -657,7 +672,7 @@ class Session:
             if H["next"] < len(exp):
                 res.bin("second_buffer_filled_before_ack")
             pure = rng.random() < self.p_pure_ack
-            if self.clean and all_done():
+            if (self.clean and all_done()) or (M["want_reset"] and H["next"] >= len(exp)):
                 pure = True
             res.event("acks_sent")
             M["last_ack_cycle"] = b.cycle + 1
@@ -668,7 +683,7 @@ class Session:
                 self.tp_clear()
                 yield from self.idle(3)
                 self.drain()
-                if rng.random() < self.p_reset and H["next"] >= len(exp) and self.nothing_buffered(M, exp):
+                if (M["want_reset"] or rng.random() < self.p_reset) and H["next"] >= len(exp) and self.nothing_buffered(M, exp):
                     yield from self.quiet_reset(M, exp)
             else:
                 res.bin("ack_and_request")
@@ -703,8 +718,10 @@ class Session:
             H["in_sync"] = True
             H["acks_since_reset"] = 0
             H["zlp_flag"] = None
+            H["reset_done"] = True
             self.res.bin("ep_reset_quiet")
             yield from self.idle(2)
+            M["want_reset"] = False
         M["pause"] = False
 
     # ---- event helpers: the host consumes the chronological event list through H["ev"]
@@ -887,6 +904,8 @@ class Session:
                 return False
             want, want_seq = exp[idx]["data"], H["seq"]
             H["first_kind"] = kind
+            if H.get("reset_done") and H["acks_since_reset"] == 0:
+                res.bin("packet_after_ep_reset")
             H["cur_zlp_standalone"] = dp["zlp"] and kind == "in"
         single = (not dp["zlp"]) and len(dp["data"]) <= 4
         if dp["data"] != want:
